@@ -4,11 +4,12 @@
 use vstd::prelude::*;
 use std::sync::Arc;
 use std::cmp;
+use std::mem;
 use vstd::std_specs::cmp::*;
 verus! {
 //@ include prelude/numeric_id.vs
 //@ include prelude/std_extra.vs
-broadcast use {nid::ax_id_eq, nid::ax_id_cmp, nid::ax_id_obeys_eq, nid::ax_id_obeys_cmp, nid::ax_id_obeys_partial_cmp, nid::ax_id_partial_cmp, stdx::ax_iter_seq_vec};
+broadcast use {stdx::ax_default_bool, nid::ax_id_eq, nid::ax_id_cmp, nid::ax_id_obeys_eq, nid::ax_id_obeys_cmp, nid::ax_id_obeys_partial_cmp, nid::ax_id_partial_cmp, stdx::ax_iter_seq_vec};
 //@ idtype Value RowId ColumnId
 //@ idtype64 Generation Offset
 
@@ -221,6 +222,7 @@ impl DisplacedTable {
         requires old(self).inv(), row@.len() >= 2 ==> row@[0].ix() < usize::MAX && row@[1].ix() < usize::MAX,
         ensures
             final(self).inv(),
+            final(self).changed == old(self).changed,
             ({
                 let a = row@[0].ix();
                 let b = row@[1].ix();
@@ -348,6 +350,69 @@ impl DisplacedTable {
         requires self.table.inv(),
         // C01/C14: the rebuilder handed to tables and containers maps every id to its canonical id
         ensures r.ix() == root(self.table.p(), val.ix()),
+//@ end-fn
+//@ end-impl
+
+// ---- DisplacedTable::merge: staged union rows reach insert_impl unchanged; the partition only coarsens ----------
+// A-arith: 64-bit target (a u32 id is then always below usize::MAX, which `UnionFind::reserve` needs)
+global size_of usize == 8;
+
+#[verifier::external_body]
+pub struct MergeState { _p: core::marker::PhantomData<u8> }
+//@ item core-relations/src/table_spec.rs struct TableChange
+
+impl<T> SegQueue<T> {
+    // A-db: crossbeam SegQueue::pop: some buffered element, or None when the queue is (momentarily) empty
+    #[verifier::external_body]
+    pub fn pop(&self) -> Option<T> { unimplemented!() }
+}
+impl RowBuffer {
+    // A-db: the rows of a staged buffer, in order (RowBuffer::iter transmutes Cell<Value> slices: outside Verus)
+    #[verifier::external_body]
+    pub fn iter(&self) -> (r: &Vec<Vec<Value>>)
+        ensures forall|k: int| 0 <= k < r@.len() ==> (#[trigger] r@[k])@.len() == 3
+    { unimplemented!() }
+}
+
+//@ impl core-relations/src/uf/mod.rs impl Table for DisplacedTable => impl DisplacedTable
+//@ fn merge
+//@ ret r
+//@ rewrite R-PARAMNAME
+//@ rewrite R-BOOLOP self.changed
+//@ rewrite R-ITER 1
+//@ at attr
+    #[verifier::exec_allows_no_decreases_clause]
+//@ at sig
+        requires old(self).inv(), !old(self).changed,
+        ensures
+            final(self).inv(),
+            !final(self).changed,
+            // rows are only appended, and the table reports a change exactly when a union actually merged two classes
+            final(self).n() >= old(self).n(),
+            forall|k: int| 0 <= k < old(self).n() ==> #[trigger] final(self).displaced@[k] == old(self).displaced@[k],
+            r.added == (final(self).n() > old(self).n()),
+            r.removed == r.added,
+            // merging never splits a class
+            forall|x: nat, y: nat| #![trigger root(final(self).p(), x), root(final(self).p(), y)]
+                root(old(self).p(), x) == root(old(self).p(), y) ==> root(final(self).p(), x) == root(final(self).p(), y),
+//@ at loop 0 spec
+            invariant
+                self.inv(),
+                self.n() >= old(self).n(),
+                forall|k: int| 0 <= k < old(self).n() ==> #[trigger] self.displaced@[k] == old(self).displaced@[k],
+                self.changed == (self.n() > old(self).n()),
+                forall|x: nat, y: nat| #![trigger root(self.p(), x), root(self.p(), y)]
+                    root(old(self).p(), x) == root(old(self).p(), y) ==> root(self.p(), x) == root(self.p(), y),
+//@ at before-loop 1
+            #[verifier::loop_isolation(false)]
+//@ at loop 1 spec
+                invariant
+                    self.inv(),
+                    self.n() >= old(self).n(),
+                    forall|k: int| 0 <= k < old(self).n() ==> #[trigger] self.displaced@[k] == old(self).displaced@[k],
+                    self.changed == (self.n() > old(self).n()),
+                    forall|x: nat, y: nat| #![trigger root(self.p(), x), root(self.p(), y)]
+                        root(old(self).p(), x) == root(old(self).p(), y) ==> root(self.p(), x) == root(self.p(), y),
 //@ end-fn
 //@ end-impl
 
